@@ -562,10 +562,10 @@ def judge_tset(c, exp, conv, t, xpos):
 def tset_finding(c, lays, what):
     """Names of the known integer-type deviations that explain a trace-set mismatch exactly (None otherwise)."""
     typ = lays.get('xpos', '').partition(':')[2]
-    if not typ or what.startswith('raised'):
-        return None
     if typ in ('uint8', 'int8', 'int16', 'uint16') and not (c['gmin'] and c['gmax']):
         return 'D-C13-7'        # limits taken from narrow integer positions: xmin + xmax wraps around in xmid
+    if not typ or what.startswith('raised'):
+        return None
     return 'D-C13-5'
 
 
